@@ -10,6 +10,7 @@ import Glas.Model.ConcCmd
 import Glas.Model.UnionFindCmd
 import Glas.Model.TySpecCmd
 import Glas.Model.ImportsCmd
+import Glas.Model.FieldsCmd
 /-! The executable model behind a one-line-in, one-line-out protocol (tab-separated fields). -/
 open Glas
 
@@ -50,7 +51,10 @@ def dispatch (line : String) : String :=
                       | none =>
                         match ImportsCmd.run args with
                         | some r => r
-                        | none => "bad-op"
+                        | none =>
+                          match FieldsCmd.run args with
+                          | some r => r
+                          | none => "bad-op"
 
 partial def loop (h : IO.FS.Stream) (out : IO.FS.Stream) : IO Unit := do
   let line ← h.getLine
